@@ -63,7 +63,7 @@ def run(prop, tier, replay):
     vh = build_harness()
     d = scratch_dir("vmm")
     try:
-        out, _ = run_vh(vh, ["mappages", d])
+        out, _ = run_vh(vh, ["mappages", d], env_extra={"VERIF_TIER": tier})
         summ = json.loads(out)
         # 3. TLC judges the recorded tables
         r3 = run_tlc("MemMapTrace", "MemMapTrace.cfg", workers=8, files={"pages.ndjson": os.path.join(d, "pages.ndjson")})
